@@ -170,7 +170,7 @@ Definition outcome_state (o : outcome) (dflt : state) : state :=
 
 Lemma run_input_inv f now s i : InvT s -> InvT (outcome_state (run_input f now s i) s).
 Proof.
-  intros HI. destruct i as [ps ts ref md amd force | id force at_eff | [a|id] md | [a|id] k]; simpl.
+  intros HI. destruct i as [ps ts ref md amd force | id force at_eff rmeta | [a|id] md | [a|id] k]; simpl.
   - destruct ps as [|p ps']; [exact HI|].
     destruct (feasible force (s_vols s) (p :: ps')); simpl; [|exact HI].
     destruct (commit_transaction f now s (p :: ps') md ts ref) as [s1 [t|]] eqn:E; simpl.
@@ -206,7 +206,7 @@ Qed.
 Lemma run_input_logs f now s i :
   let s' := outcome_state (run_input f now s i) s in s_logs s' = s_logs s /\ s_next_log s' = s_next_log s.
 Proof.
-  destruct i as [ps ts ref md amd force | id force at_eff | [a|id] md | [a|id] k]; simpl.
+  destruct i as [ps ts ref md amd force | id force at_eff rmeta | [a|id] md | [a|id] k]; simpl.
   - destruct ps as [|p ps']; [tauto|].
     destruct (feasible force (s_vols s) (p :: ps')); simpl; [|tauto].
     destruct (commit_transaction f now s (p :: ps') md ts ref) as [s1 [t|]] eqn:E; simpl.
@@ -233,7 +233,7 @@ Proof. destruct o; intros H; [apply commit_some in H | apply commit_none in H]; 
 Lemma run_input_next_mono f now s i : s_next_tx s <= s_next_tx (outcome_state (run_input f now s i) s).
 Proof.
   assert (R : s_next_tx s <= s_next_tx s) by apply Z.le_refl.
-  destruct i as [ps ts ref md amd force | id force at_eff | [a|id] md | [a|id] k]; simpl.
+  destruct i as [ps ts ref md amd force | id force at_eff rmeta | [a|id] md | [a|id] k]; simpl.
   - destruct ps as [|p ps']; [exact R|].
     destruct (feasible force (s_vols s) (p :: ps')); simpl; [|exact R].
     destruct (commit_transaction f now s (p :: ps') md ts ref) as [s1 [t|]] eqn:E; simpl.
@@ -385,7 +385,7 @@ Proof. intros [[A B]|[ps [A B]]] E1 E2; [left | right; exists ps]; rewrite E1, E
 
 Lemma run_input_vol_shape f now s i : vol_shape s (outcome_state (run_input f now s i) s).
 Proof.
-  destruct i as [ps ts ref md amd force | id force at_eff | [a|id] md | [a|id] k]; simpl.
+  destruct i as [ps ts ref md amd force | id force at_eff rmeta | [a|id] md | [a|id] k]; simpl.
   - destruct ps as [|p ps']; [apply vol_shape_refl|].
     destruct (feasible force (s_vols s) (p :: ps')); simpl; [|apply vol_shape_refl].
     destruct (commit_transaction f now s (p :: ps') md ts ref) as [s1 [t|]] eqn:E; simpl.
